@@ -832,9 +832,92 @@ def gen_exhaustive(ck):
     return out
 
 
+NSPATHS = ["a/p:b", "a/q:b", "a/b", "a/p:b/p:c", "a/b/p:c", "a/p:b/c", "a/q:b/p:c", "a/p:b/q:c", "p:a/p:b",
+           "a/p:a", "a/p:a/p:b", "a/a/p:b", "p:b", "q:b", "b/p:c", "p:b/p:c", "a/zz:b", "a/xml:b"]
+
+
+def gen_nspath_history(rng, length):
+    """Trees made for prefixed multi-step paths: a prefix is declared only on an
+    intermediate node, or re-bound there to another URI than above, and that node
+    has children with EQUAL local names in different namespaces (unqualified,
+    default namespace, prefix resolved through the intermediate node, own
+    binding), in random order; the history interleaves path lookups from several
+    start nodes with re-bindings and re-orderings."""
+    ops = []
+    count = [0]
+
+    def new(qname, ns, parent, binds=()):
+        i = count[0]
+        count[0] += 1
+        ops.append(("new", qname, ns))
+        for p, u in binds:
+            ops.append(("addprefix", i, p, u))
+        if parent is not None:
+            ops.append(("append", parent, [i], False))
+        return i
+
+    def variants(local, uris):
+        """same local name, different namespaces"""
+        v = [(local, None), ("p:" + local, None), ("q:" + local, None),
+             (local, ("d", uris[0])), (local, ("d", uris[1])),
+             ("q:" + local, ("p", "q", uris[2])), ("p:" + local, ("p", "p", uris[0]))]
+        rng.shuffle(v)
+        return v[:rng.choice([3, 4, 5, 6])]
+
+    uris = list(URIS)
+    rng.shuffle(uris)
+    top = [(p, u) for p, u in (("p", uris[0]), ("q", uris[1])) if rng.random() < 0.65]
+    r = new(rng.choice(["r", "p:r"]), rng.choice([None, None, ("d", uris[2])]), None, top)
+    mids = []
+    for k in range(rng.choice([1, 2, 2, 3])):
+        # intermediate nodes named a: p (and sometimes q) declared or re-bound HERE
+        binds = [("p", rng.choice([uris[1], uris[2]]))]
+        if rng.random() < 0.4:
+            binds.append(("q", rng.choice([uris[0], uris[2]])))
+        if k > 0 and rng.random() < 0.4:
+            binds = []
+        name, ns = rng.choice([("a", None), ("a", None), ("p:a", None), ("a", ("d", uris[0]))])
+        mids.append(new(name, ns, r, binds))
+    leaves = []
+    for m in mids:
+        for name, ns in variants("b", uris):
+            b = new(name, ns, m, [("p", rng.choice(uris))] if rng.random() < 0.35 else ())
+            leaves.append(b)
+            if count[0] < 26 and rng.random() < 0.5:
+                for cname, cns in variants("c", uris)[:3]:
+                    new(cname, cns, b)
+        if rng.random() < 0.3:
+            for name, ns in variants("a", uris)[:2]:
+                new(name, ns, m)
+    setup = list(ops)
+    n = count[0]
+    steps = []
+    for _ in range(length):
+        x = rng.random()
+        start = r if rng.random() < 0.7 else rng.choice(mids)
+        if x < 0.4:
+            steps.append(("childAtPath", start, rng.choice(NSPATHS)))
+        elif x < 0.75:
+            steps.append(("childrenAtPath", start, rng.choice(NSPATHS)))
+        elif x < 0.8:
+            steps.append(("getChild", rng.choice(mids), rng.choice(["p:b", "q:b", "b"]), None))
+        elif x < 0.87:
+            steps.append(("addprefix", rng.choice([r] + mids + leaves), rng.choice(["p", "q"]), rng.choice(uris)))
+        elif x < 0.92:
+            steps.append(("clearprefix", rng.choice([r] + mids), rng.choice(["p", "q"])))
+        elif x < 0.96:
+            steps.append(("setprefix", rng.choice(leaves), rng.choice(["p", "q", None]), None))
+        else:
+            steps.append(("detach", rng.choice(leaves)))
+    return setup, steps
+
+
 def generate(ck):
     rng = ck.rng
     groups = []
+    for _ in range(1500 if ck.tier == "thorough" else 160):
+        setup, steps = gen_nspath_history(rng, 12)
+        groups.append(("random-nspath", setup, steps))
     if ck.tier == "thorough":
         plan = [(25, 1500), (12, 1500), (5, 1500)]
     else:
@@ -1146,6 +1229,12 @@ def run(ck):
             return default
     quirk = bounded(probe_attr_mode, "AQuirk")
     ck.extra["attribute_removal_mode_probed"] = quirk
+    if quirk == "AQuirk":
+        # repaired in 8e035ad: the model would follow the old behaviour, but it is a defect
+        ck.failing_input(KEY_ATTR_EQ,
+                         "Element.remove(attribute) on <r n:n='1' q:n='2'/> given the attribute q:n removes n:n "
+                         "instead: list.remove goes by Attribute.__eq__, which compares self.prefix with rhs.name "
+                         "again", {"kind": "unset-probe", "observed": "mode AQuirk", "expected": ["n:n"]})
     left = bounded(probe_unset_wrong_attribute, ["n:n"])
     ck.seen(("probe", "unset-q:n"), nontrivial=True)
     ck.count("probe:unset-among-same-local-names")
@@ -1153,14 +1242,7 @@ def run(ck):
         what = ("Element.unset('q:n') on <r n:n='1' q:n='2'/> (n, q bound to different namespaces) leaves %r: "
                 "attributes.remove() goes by Attribute.__eq__, which compares self.prefix with rhs.name, so the "
                 "EARLIER attribute n:n is removed instead of the one named" % (left,))
-        listed = [f for f in common.load_known().get("findings", [])
-                  if f.get("property") == "C19" and f.get("key") == KEY_ATTR_EQ]
-        if listed:
-            # registered: re-observed as a KNOWN-FINDING, or a VIOLATION when it was recorded as fixed
-            ck.failing_input(KEY_ATTR_EQ, what, {"kind": "unset-probe", "observed": left, "expected": ["n:n"]})
-        else:
-            # proposed finding, not registered in KNOWN_FINDINGS.json yet: recorded, no verdict
-            ck.extra["proposed_finding_not_registered"] = {"key": KEY_ATTR_EQ, "what": what}
+        ck.failing_input(KEY_ATTR_EQ, what, {"kind": "unset-probe", "observed": left, "expected": ["n:n"]})
     for key, what, observed in bounded(regression_probes, []):
         ck.failing_input(key, what + " (repaired earlier, now back): " + observed,
                          {"kind": "regression-probe", "key": key, "observed": observed})
@@ -1253,6 +1335,10 @@ def run(ck):
                "also samples lengths 3 and 4; (2) random trees of depth <= 4, <= 14 nodes, sibling names drawn "
                "from a,a,a,b,b,c, prefixes p/q bound to u1..u3 at different levels, default namespaces, "
                "attributes and text, plus parentless spare nodes, x random histories of length 25, 12 and 5 "
+               "(plus 160 / 1500 trees built for prefixed paths: p, q declared only on or re-bound at the "
+               "intermediate nodes named a, whose children share a local name across unqualified / default / "
+               "prefixed namespaces in random order, x 12 steps of childAtPath / childrenAtPath / getChild with "
+               "1-3 step prefixed paths from several start nodes, interleaved with re-bindings and detaches) "
                "over all 24 operations (half of the histories contain, near the end, one edit deliberately outside the reference's domain).  distinct = distinct "
                "(setup, history); non-trivial = the history contains at least one edit")
     ck.exhaustive = False
